@@ -32,14 +32,24 @@ func (c *PointerCodec) Write(w *WriteBuf, p unsafe.Pointer) {
 	// need to worry about writing the union selector.
 	pp := *(*unsafe.Pointer)(p)
 	if pp == nil {
-		// Pointers to slices and maps are not wrapped in a union (their
-		// schema stays a plain array or map), so nil must still produce a
-		// valid encoding: the empty collection.
-		switch c.Codec.(type) {
-		case *arrayCodec, *MapCodec:
-			w.Varint(0)
-		}
 		return
 	}
 	c.Codec.Write(w, pp)
+}
+
+// collectionPointerCodec is the pointer codec for array and map schemas.
+// Pointers to slices and maps are not wrapped in a union (their schema stays a
+// plain array or map), so nil must still produce a valid encoding: the empty
+// collection. The schema decides this, not the codec that serves it, so that a
+// registered codec for a slice or map type behaves the same way.
+type collectionPointerCodec struct {
+	PointerCodec
+}
+
+func (c *collectionPointerCodec) Write(w *WriteBuf, p unsafe.Pointer) {
+	if *(*unsafe.Pointer)(p) == nil {
+		w.Varint(0)
+		return
+	}
+	c.PointerCodec.Write(w, p)
 }
